@@ -578,6 +578,7 @@ func (t *Target) gnmiUpdate(n *pb.Notification) (*ctree.Leaf, error) {
 			// Record latency for post-sync target updates.  Exclude metadata updates.
 			t.lat.Compute(T(n.GetTimestamp()))
 		}
+		verifPoint("cache.update.written", t.name)
 		return oldval, nil
 	}
 	// Add a new leaf.
@@ -593,6 +594,7 @@ func (t *Target) gnmiUpdate(n *pb.Notification) (*ctree.Leaf, error) {
 			t.lat.Compute(T(n.GetTimestamp()))
 		}
 	}
+	verifPoint("cache.update.written", t.name)
 	return t.t.GetLeaf(path), nil
 }
 
@@ -632,6 +634,7 @@ func (t *Target) gnmiRemove(n *pb.Notification) []*ctree.Leaf {
 		leaves = append(leaves, ctree.DetachedLeaf(toDeleteNotification(d, n.GetTimestamp())))
 	}
 	t.t.WalkDeleted(path, func(v interface{}) bool { return v.(*pb.Notification).GetTimestamp() < n.GetTimestamp() }, f)
+	verifPoint("cache.remove.walked", t.name)
 	if len(leaves) == 0 {
 		return nil
 	}
